@@ -2,6 +2,8 @@
    one-step lemmas of the builtins (what each builtin does with related, already evaluated arguments). *)
 From Verif Require Import Base.Bytes Model.Chain Model.GoText Model.Envelope Model.Eval Model.Redact.
 From Verif Require Import Proofs.NonInterferenceRel Proofs.NonInterferenceOps Proofs.NonInterferenceTwins Proofs.NonInterferenceMono.
+From Verif Require Proofs.HelperFuel.
+From Verif Require Import Proofs.RefSem2Depth.
 From Coq Require Import Lia ZifyN ZifyNat ZifyBool.
 
 Notation lo_c := (Forall2 lo_l).
@@ -156,10 +158,17 @@ Proof. reflexivity. Qed.
 
 (* conversion problems whose scrutinee is [export big_fuel _] make the kernel unfold the 4096-deep numeral:
    always REWRITE with the lemmas below instead of unfolding *)
-Lemma cs_eq c : contains_secrets c = match export big_fuel c with Some v => x_has_secret v | None => true end.
+Lemma cs_eq c : contains_secrets c = match export_t c with Some v => x_has_secret v | None => true end.
 Proof. unfold contains_secrets. reflexivity. Qed.
-Lemma cu_eq c : contains_unknowns c = match export big_fuel c with Some v => x_has_unknown v | None => true end.
+Lemma cu_eq c : contains_unknowns c = match export_t c with Some v => x_has_unknown v | None => true end.
 Proof. unfold contains_unknowns. reflexivity. Qed.
+
+(* the exports of the two runs, read at ONE fuel (two successors are visible: arrays of strings are read two levels deep) *)
+Definition g2 (c1 c2 : chain) : nat := Nat.max (cdepth c1) (cdepth c2).
+Lemma export_t_g_l c1 c2 : export_t c1 = export (S (S (g2 c1 c2))) c1.
+Proof. apply export_t_at. unfold g2. lia. Qed.
+Lemma export_t_g_r c1 c2 : export_t c2 = export (S (S (g2 c1 c2))) c2.
+Proof. apply export_t_at. unfold g2. lia. Qed.
 Lemma export_S_scalar f sec unk sc s r : export (S f) (LScalar sec unk sc s :: r) = Some (XScalar sec unk s).
 Proof. reflexivity. Qed.
 Lemma export_S_arr f sec unk sc e r :
@@ -167,11 +176,13 @@ Lemma export_S_arr f sec unk sc e r :
 Proof. reflexivity. Qed.
 
 Lemma public_export_eq c1 c2 : lo_c c1 c2 -> contains_secrets c1 = false ->
-  exists xv, export big_fuel c1 = Some xv /\ export big_fuel c2 = Some xv.
+  exists xv, export (S (S (g2 c1 c2))) c1 = Some xv /\ export (S (S (g2 c1 c2))) c2 = Some xv
+             /\ export_t c1 = Some xv /\ export_t c2 = Some xv.
 Proof.
-  intros H Hs. rewrite cs_eq in Hs. pose proof (export_lo big_fuel _ _ H) as HE.
-  destruct (export big_fuel c1) as [x1|]; [|discriminate].
-  destruct (export big_fuel c2) as [x2|]; [|contradiction].
+  intros H Hs. rewrite cs_eq in Hs. rewrite (export_t_g_l c1 c2) in *. rewrite (export_t_g_r c1 c2).
+  pose proof (export_lo (S (S (g2 c1 c2))) _ _ H) as HE.
+  destruct (export (S (S (g2 c1 c2))) c1) as [x1|]; [|discriminate].
+  destruct (export (S (S (g2 c1 c2))) c2) as [x2|]; [|contradiction].
   rewrite (no_secret_eq' _ _ _ Hs HE). eauto.
 Qed.
 
@@ -186,8 +197,8 @@ Qed.
 
 Lemma head_str_lo c1 c2 : lo_c c1 c2 -> contains_secrets c1 = false -> head_str c1 = head_str c2.
 Proof.
-  intros H Hs. destruct (public_export_eq _ _ H Hs) as (xv & E1 & E2).
-  rewrite big_fuel_S in E1, E2. apply (head_str_export bf'); [exact H|congruence].
+  intros H Hs. destruct (public_export_eq _ _ H Hs) as (xv & E1 & E2 & _).
+  apply (head_str_export (S (g2 c1 c2))); [exact H|congruence].
 Qed.
 
 Lemma mapM_Some_inv {A B} (g : A -> option B) l : forall r, mapM g l = Some r -> Forall2 (fun a y => g a = Some y) l r.
@@ -198,17 +209,17 @@ Qed.
 
 Lemma elems_str_lo sec1 unk1 sc1 e1 r1 sec2 unk2 sc2 e2 r2 :
   Forall2 lo_c e1 e2 ->
-  forall xv, export big_fuel (LArr sec1 unk1 sc1 e1 :: r1) = Some xv -> export big_fuel (LArr sec2 unk2 sc2 e2 :: r2) = Some xv ->
+  forall f xv, export (S (S f)) (LArr sec1 unk1 sc1 e1 :: r1) = Some xv -> export (S (S f)) (LArr sec2 unk2 sc2 e2 :: r2) = Some xv ->
   map head_str e1 = map head_str e2.
 Proof.
-  intros He xv E1 E2. rewrite big_fuel_S, export_S_arr in E1, E2.
-  destruct (mapM (export bf') e1) as [x1|] eqn:M1; [|discriminate].
-  destruct (mapM (export bf') e2) as [x2|] eqn:M2; [|discriminate].
+  intros He f xv E1 E2. rewrite export_S_arr in E1, E2.
+  destruct (mapM (export (S f)) e1) as [x1|] eqn:M1; [|discriminate].
+  destruct (mapM (export (S f)) e2) as [x2|] eqn:M2; [|discriminate].
   assert (x1 = x2) by congruence. subst x2.
   apply mapM_Some_inv in M1. apply mapM_Some_inv in M2. clear E1 E2.
   revert x1 M1 M2. induction He as [|a b e1 e2 Hab _ IH]; intros x1 M1 M2; [reflexivity|].
   inversion M1; subst. inversion M2; subst. simpl. f_equal; [|eapply IH; eassumption].
-  rewrite bf'_S in *. apply (head_str_export bf''); [exact Hab|congruence].
+  apply (head_str_export f); [exact Hab|congruence].
 Qed.
 
 (* ------------------------------------------------------------------------------------------------ *)
@@ -234,9 +245,9 @@ Proof.
   apply rel_ret. apply str_layer_lo. intros Hsec. apply Bool.orb_false_elim in Hsec. destruct Hsec as [Sd Sv].
   rewrite <- (contains_secrets_lo _ _ Hd) in Sd. rewrite <- (contains_secrets_lo _ _ Hv) in Sv.
   fold (head_str dv1) (head_str dv2). rewrite (head_str_lo _ _ Hd Sd). f_equal.
-  destruct (public_export_eq _ _ Hv Sv) as (xv & X1 & X2).
+  destruct (public_export_eq _ _ Hv Sv) as (xv & X1 & X2 & _). revert X1 X2. generalize (g2 vv1 vv2). intros g X1 X2.
   destruct Hv as [|l1 l2 c1 c2 Hl Hc]; [reflexivity|]. destruct Hl as [| sec unk sc e1 e2 He |]; try reflexivity.
-  exact (elems_str_lo _ _ _ _ _ _ _ _ _ _ He xv X1 X2).
+  exact (elems_str_lo _ _ _ _ _ _ _ _ _ _ He g xv X1 X2).
 Qed.
 
 (* fn::toBase64 *)
@@ -281,17 +292,30 @@ Proof.
     match goal with |- mrel _ (if ?a then _ else _) _ => destruct a end; [|ng_tac].
     match goal with |- mrel _ _ (if ?a then _ else _) => destruct a end; [|ng_tac].
     apply rel_ret, str_layer_lo. discriminate.
-  - destruct (HP eq_refl) as (xv & X1 & X2). rewrite X1, X2. cbv zeta.
+  - destruct (export big_fuel v1) as [x1|] eqn:E1; [|ng_tac]. destruct (export big_fuel v2) as [x2|] eqn:E2; [|ng_tac].
+    destruct (HP eq_refl) as (xv & _ & _ & X1 & X2).
+    rewrite (export_t_big _ _ E1) in X1. rewrite (export_t_big _ _ E2) in X2. injection X1 as ->. injection X2 as ->. cbv zeta.
     match goal with |- mrel _ (if ?a then _ else _) _ => destruct a end; [rel_refl|ng_tac].
 Qed.
 
 (* fn::toString *)
 Theorem tostring_lo v1 v2 : lo_c v1 v2 -> mrel lo_c (tostring_tail v1) (tostring_tail v2).
 Proof.
-  intros Hv. unfold tostring_tail. pose proof (to_string_lo big_fuel _ _ Hv) as HT.
-  destruct (to_string big_fuel v1) as [[s1 u1] k1], (to_string big_fuel v2) as [[s2 u2] k2].
+  intros Hv. unfold tostring_tail.
+  rewrite (HelperFuel.to_string_need_max v1 (ts_need v2)), (HelperFuel.to_string_need_max' v2 (ts_need v1)).
+  pose proof (to_string_lo (Nat.max (ts_need v1) (ts_need v2)) _ _ Hv) as HT.
+  destruct (to_string (Nat.max (ts_need v1) (ts_need v2)) v1) as [[s1 u1] k1],
+           (to_string (Nat.max (ts_need v1) (ts_need v2)) v2) as [[s2 u2] k2].
   destruct HT as (Eu & Ek & Es). cbn [fst snd] in *. subst u2 k2. destruct u1; [rel_refl|].
   apply rel_ret, str_layer_lo, Es.
+Qed.
+
+(* unexport at the fuel the evaluator computes from each value (Proofs/HelperFuel.v: both can be read at one fuel) *)
+Lemma unexport_need_lo xs v1 v2 :
+  lo_under xs v1 v2 -> lo_c (unexport (S (x_depth v1)) xs v1) (unexport (S (x_depth v2)) xs v2).
+Proof.
+  intros H. rewrite (HelperFuel.unexport_need_max xs v1 (S (x_depth v2))), (HelperFuel.unexport_need_max' xs v2 (S (x_depth v1))).
+  apply unexport_lo, H.
 Qed.
 
 (* fn::fromJSON: a SECRET document may parse to different shapes in the two runs (or to null, which FromJSON
@@ -319,7 +343,7 @@ Proof.
   unfold fj_ok in HJ'.
   destruct (json_parse s) as [j1| |]; [|ng_tac|ng_tac].
   destruct (json_parse s0) as [j2| |]; [|ng_tac|ng_tac].
-  apply rel_ret. rewrite (json_depth_lo _ _ _ HJ'). apply unexport_lo.
+  apply rel_ret. rewrite (json_depth_lo _ _ _ HJ'). apply unexport_need_lo.
   eapply lo_g_weaken; [| |apply json_to_x_lo, HJ']; auto.
 Qed.
 
@@ -353,16 +377,17 @@ Proof.
   intros EN ER HP. destruct r1 as [v1 ok], r2 as [v2 ok2]. intros [Hv E]. cbn [fst snd] in *. subst ok2. unfold open_tail.
   destruct prov1 as [p1|], prov2 as [p2|]; simpl in HP; try contradiction; [|rel_refl].
   destruct HP as (_ & Eout & Hbeh). rewrite <- Hcheck, <- Eout, <- EN, <- ER.
-  pose proof (export_lo big_fuel _ _ Hv) as HE.
+  pose proof (export_lo (S (S (g2 v1 v2))) _ _ Hv) as HE.
   rewrite (contains_unknowns_lo _ _ Hv).
   destruct (negb ok || contains_unknowns v2 || w_check W1); [rel_refl|].
-  destruct (export big_fuel v1) as [x1|], (export big_fuel v2) as [x2|]; simpl in HE; try contradiction; [|ng_tac].
+  rewrite (export_t_g_l v1 v2), (export_t_g_r v1 v2).
+  destruct (export (S (S (g2 v1 v2))) v1) as [x1|], (export (S (S (g2 v1 v2))) v2) as [x2|]; simpl in HE; try contradiction; [|ng_tac].
   inversion HE as [inh s u a b Hs|inh s u l1 l2 Hl|inh s u m1 m2 Hm]; subst; try (apply rel_add_err; rel_refl).
   apply rel_call; [exact Hfault|]. intros failed2. apply rel_emit; [constructor; exact HE|].
   destruct failed2; [apply rel_add_err; rel_refl|].
   destruct (pv_beh p1), (pv_beh p2); simpl in Hbeh; try contradiction.
-  - apply rel_ret, unexport_lo. apply lo_strict_equiv. exact HE.
-  - apply rel_ret, unexport_lo. exact Hbeh.
+  - apply rel_ret, unexport_need_lo. apply lo_strict_equiv. exact HE.
+  - apply rel_ret, unexport_need_lo. exact Hbeh.
   - apply rel_add_err; rel_refl.
 Qed.
 End WORLDS.
